@@ -16,6 +16,11 @@ CLAIMED = {
         note="trusted: Lean kernel (+ the three standard axioms); translator tools/gen_codecs.py; harness value describers; JSON (serde derive / ruint) is validated on the real code only (partial for the JSON clause)",
         technique="Lean 4 proof (structural induction on type descriptions) + regenerated field lists checked by decide + differential correspondence",
         ref="DESIGN.md §6 C14"),
+    "C15": dict(
+        text="Lean theorems: base64(no pad) and nada round trips for all byte strings, payload round trip for every prefix the published encoder can pick and any '=' padding up to and including the limit, decode output never exceeds the limit (bombs), unknown prefix / empty text refused, hex and base64 fields select the same bytes; base64 and nada are transcribed from the crates' sources; suite P compares the real decoder/encoder/select_bytes with the model (zstd outcome supplied as oracle) incl. payloads at limit-1/limit/limit+1 and decompression bombs",
+        note="trusted: Lean kernel (+ propext, Quot.sound); zstd as a parameter with the stated contract; harness and line protocol. End-to-end equality of transactions/receipts for hex vs base64 submissions is exercised by the engine suite, not proved here.",
+        technique="Lean 4 proof (state-machine invariant for nada, arithmetic for base64) + differential correspondence",
+        ref="DESIGN.md §6 C15"),
 }
 PENDING_REASON = "not claimed yet in this commit: model and theorems for this property are still being built (see DESIGN.md §10 order of work)"
 
